@@ -47,6 +47,24 @@ T = {
  "C19a": ("C19", "get_rms re-implemented with searchsorted side='right' for both edges", "lower band edge exactly on a grid frequency", [], ""),
  "C19b": ("C19", "df_detrend(inplace=True) casts back to the column dtype", "integer column, inplace=True", [], ""),
  "C20a": ("C20", "get_measurement complex branch: bracket index clipped to n-2", "single-bin cross result, complex quantity, query at the bin frequency", [], ""),
+ "C01c": ("C01", "NumPy fallbacks gather segments through a helper that caps each block at 2^20 samples; segments beyond the cap stay uninitialised", "numpy backend and a bin with K*L > 2^20", [], "scale-dependent: needed the large-bin part D of C01 (K=300 x L=4096, K=33000 x L=40)"),
+ "C01d": ("C01", "_build_Q uses column-normalised Legendre polynomials (not orthogonal on the discrete grid)", "order 2 with non-negligible mean/quadratic content or short L", [], ""),
+ "C04c": ("C04", "force_target_nf for N>=50000 runs the Jdes search on the vectorised scheduler as a stand-in for ltf/lpsd", "N>=50000, ltf/lpsd, one of the few targets where the two schedulers differ by one bin", [], "scale-dependent: needed forced targets at N=60000"),
+ "C04d": ("C04", "olap=0 treated as 'default' (falsy-zero slip) in the analyzer's window configuration", "exactly olap == 0 through SpectrumAnalyzer", [], "needed the analyzer plan to be compared with the direct scheduler call in C04/C02"),
+ "C05c": ("C05", "compute() processes the plan in blocks of 1024 bins and reads the analysis frequency with the block-local index", "a plan with more than 1024 bins", [], "scale-dependent: needed the >2000-bin plan case in C05"),
+ "C05d": ("C05", "module-level window cache keyed by (win_name, alpha, L): all custom callables collide", "an earlier compute() in the process with another custom window callable and the same L", [], ""),
+ "C12c": ("C12", "windows stored as float32", "Kaiser psll above ~165 dB and > 165 dB of dynamic range", [], ""),
+ "C16c": ("C16", "df_timeshift rounds seconds*fs to 6 decimals", "a shift with digits beyond the sixth decimal, or |shift| < 5e-7", [], "needed many-decimal and tiny shifts in the DataFrame part"),
+ "C16d": ("C16", "df_timeshift snaps seconds*fs to the nearest integer under np.isclose (rtol scales with the shift)", "a large shift with a small fractional part", [], "needed a long frame with shifts like 2000.01"),
+ "C17c": ("C17", "settled filter state cached per (class, seed, parameters) by reference (as C17a)", "second same-seed alpha/pink generator built after the first produced samples", [], ""),
+ "C17d": ("C17", "get_sample walks a read index and refills one sample early: the last sample of every 4096 block is never delivered", "more than 4095 consecutive get_sample() calls", [], ""),
+ "C20c": ("C20", "to_dataframe caches the list of exportable column names in a class attribute on the first export of the process", "two exports in one process, the poorer kind first", [], "needed DataFrame exports in the two-result histories"),
+ "C20d": ("C20", "cf_deg_unwrapped = np.unwrap(cf_deg, discont=180) (period still 2*pi)", "a transfer phase that wraps between neighbouring bins", [], "needed a result with a delayed channel (phase wraps)"),
+ "C20e": ("C20", "alias table psd/G -> Gxx resolved before the None gate", "psd or G read from a two-channel result", [], ""),
+ "C02c": ("C02", "vectorized_ltf_plan clips L to [Lmin,N] after the single-segment rule", "Lmin clamp active with Lmin > ~0.8 N: K=1 with L=Lmin<N", [], "needed Lmin in {ceil(.9N), N-1} on the lattice"),
+ "C03c": ("C03", "ltf_plan loops while fi <= fmax", "f[-1]+r[-1] landing exactly on fs/2 (dyadic N, small Jdes)", [], ""),
+ "C10c": ("C10", "Hxy_deg_error = rad2deg(Hxy_mag_error)", "coherence below 1 and a reader of the degree error", [], ""),
+ "C19c": ("C19", "polynomial_detrend evaluates the trend with an int64 Vandermonde matrix (overflow)", "order 5 with >= 6210 samples, order 4 with >= 55110", [], "scale-dependent: needed records of 7000 and 60000 samples"),
  "C20b": ("C20", "class-level default _cache plus __getstate__ dropping _cache: clones share one cache", "clones of two different results in one process", [], ""),
 }
 
@@ -62,6 +80,10 @@ def main():
             m = re.match(r"== /tmp/mut_(C\d+)/mut([A-Z])\.diff", line)
             if m:
                 sid = m.group(1) + m.group(2).lower()
+                continue
+            m = re.match(r"== seed (\w+)", line)
+            if m:
+                sid = m.group(1)
                 continue
             m = re.match(r"(C\d+): (CAUGHT|silent|ERROR)", line)
             if m and sid:
